@@ -15,9 +15,9 @@ import (
 
 type c13Shape struct {
 	Name    string `json:"name"`
-	N       int    `json:"n"`        // entries created
-	NameLen int    `json:"name_len"` // 1 -> short names, else padded to this length
-	Holes   string `json:"holes"`    // "", "3,4" (remove the 3rd and 4th), "alt" (every other), "fifth" (every fifth)
+	N       int    `json:"n"`             // entries created
+	NameLen int    `json:"name_len"`      // 1 -> short names, else padded to this length
+	Holes   string `json:"holes"`         // "", "3,4" (remove the 3rd and 4th), "alt" (every other), "fifth" (every fifth)
 	Big     bool   `json:"big,omitempty"` // a directory of hundreds or thousands of entries: a short list of limits instead of the dense grids
 }
 
